@@ -25,7 +25,7 @@ pub struct Ser(pub SW);
 fn gen_tree(rng: &mut Rng) -> ANode {
     loop {
         let mut cfg = GenCfg::default();
-        cfg.max_nodes = *rng.pick(&[3, 8, 16, 30]);
+        cfg.max_nodes = if crate::engine::legs_mode() { 5 } else { *rng.pick(&[3, 8, 16, 30]) };
         cfg.max_depth = *rng.pick(&[2, 4, 6]);
         cfg.ns_mode = if rng.chance(1, 3) { NsMode::None } else { NsMode::Consistent };
         cfg.text = match rng.below(4) {
